@@ -498,6 +498,21 @@ func (e *Exec) evalGhostBuiltin(st *State, call *ast.CallExpr, name string) Term
 		}
 		e.unsupported(call.Pos(), "__lastret(%q, %d): no such result", name, i)
 		return Int(0)
+	case "__cap":
+		tv, _ := e.tvOf(call.Args[0])
+		label := strings.Trim(tv.Value.ExactString(), "\"")
+		if o := e.capObj[label]; o != nil {
+			if v, ok := st.Vars[o]; ok {
+				return v
+			}
+		}
+		if len(e.frames) > 1 {
+			if t := e.typeOf(call); t != nil {
+				return e.Ctx.Fresh("cap_"+sanitize(label), e.S.SortOf(t))
+			}
+		}
+		e.unsupported(call.Pos(), "__cap(%q): no such capture", label)
+		return Int(0)
 	case "__arg", "__argT":
 		tv, _ := e.tvOf(call.Args[0])
 		i := 0
